@@ -9,24 +9,41 @@
    kernel theorems) holds.  [f_bw] is the BACKWARD kernel program scattered into zeros (the
    increment the graph adds to the argument gradient), never the transpose by definition.
 
-   core_family - C++ operators covered (operator_impl.cc / devices/naive/ops):
-     Parameter, Input (also Constant-like leaves), StopGradient (BACKWARD_NOP),
-     Copy / Positive        gx += gy                         (inplace_add)
-     Add, Subtract, Multiply   ab_fw / ab_bw, B-vs-1 minibatch broadcasting on each operand,
-                               folding into a batch-1 operand
-     Slice                  slice_fw / slice_bw
-     Pick                   pick_fw / pick_bw (ids shared or per sample, x shared or per sample)
-     Sum                    sum_fw (axis_red) / gx += broadcast(gy)   (broadcast_fw + inplace_add)
-     Broadcast              broadcast_fw / gx += sum(gy)              (axis_red + inplace_add)
-     Flip                   flip_fw / flip_bw (the same pair program)
-     Transpose              transpose_fw / transpose_bw
-     PermuteDims            permute_dims_fw / permute_dims_bw (any permutation)
-     Reshape, Flatten       identity movement / gx += gy.reshape      (inplace_add)
-     BatchSlice, BatchPick  batch_slice_fw/bw, batch_pick_fw/bw
-     BatchSum               batch_sum_fw / gx += gy with gy of batch 1 (inplace_add broadcasting)
-     Split, BatchSplit      multi-output: n slices / n times slice_bw into the one gx
-     Convolution2D          conv2d_fw / conv2d_bw over the same triples
-   NOT covered yet: see the end of this file. *)
+   core_family - C++ operators covered (operator_impl.cc FORWARD/BACKWARD + devices/naive/ops):
+     Parameter; Input (and the other BACKWARD_NOP leaves: Constant, Identity, Random* as fixed
+     values); StopGradient (BACKWARD_NOP, zero tangent)
+     Copy / Positive           gx += gy                                  (inplace_add)
+     Negative                  negate_fw / gx -= gy   (inplace_subtract_impl: the loop nest of
+                               inplace_add_impl with -=)
+     AddConst, SubtractConstR, SubtractConstL, MultiplyConst   CPUDEV_FW_X_CONST / CPUDEV_BW_X_CONST
+     Add, Subtract, Multiply   ab_fw / ab_bw with B-vs-1 minibatch broadcasting on each operand and
+                               folding of the B samples into a batch-1 operand; product rule
+     Slice                     slice_fw / slice_bw
+     Pick                      pick_fw / pick_bw (ids shared or per sample, x shared or per sample)
+     Sum                       sum_fw (axis_red) / gx += broadcast(gy)   (broadcast_fw + inplace_add)
+     Broadcast                 broadcast_fw / gx += sum(gy)              (axis_red + inplace_add)
+     Flip                      flip_fw / flip_bw (the same pair program)
+     Transpose                 transpose_fw / transpose_bw
+     PermuteDims               permute_dims_fw / permute_dims_bw (any permutation)
+     Reshape, Flatten          identity movement / gx += gy.reshape      (inplace_add)
+     Concat                    concat_fw / per operand gx_k += slice(gy) (slice_fw + inplace_add,
+                               folding into a batch-1 operand); the forward block of operand k is
+                               literally the slice_bw index program (concat_block)
+     Split                     multi-output: n slices / n times slice_bw into the one gx
+     BatchSlice, BatchPick     batch_slice_fw/bw, batch_pick_fw/bw
+     BatchConcat               batch_concat_fw / per operand gx_k += batch::slice(gy)
+     BatchSplit                multi-output: n batch slices / n times batch_slice_bw
+     BatchSum                  batch_sum_fw / gx += gy with gy of batch 1 (inplace_add broadcasting)
+     MatrixMultiply            matmul_fw (8x8x8 blocked) / ga += matmul_fw(gy, transpose_fw(b)),
+                               gb += matmul_fw(transpose_fw(a), gy)  (Tensor/AdjMatmul.v)
+     Convolution2D             conv2d_fw / conv2d_bw over the same triples
+   NOT covered (they are not polynomial over a commutative ring, or need kernels that
+   Tensor/Kernels.v does not model; their backward rules stay at the kernel / scalar level of
+   Properties_C01_{scalar,bilinear,perm}.v and at correspondence level):
+     the elementwise functions with analytic derivatives (Abs Sqrt Exp Log Tanh Sigmoid Softplus
+     Sin Cos Tan ReLU LReLU PReLU ELU PowN, the Pow, Divide and DivideConst families), Max / Min / MaxPooling2D
+     (argmax selection), LogSumExp, SoftmaxCrossEntropy, SparseSoftmaxCrossEntropy, and the
+     ...Scalar variants (AddScalar to PowScalarL: scalar_fw, and sum(flatten) in the backward). *)
 From Coq Require Import List NArith Bool Arith Lia Ring Permutation.
 From PV Require Import Graph.OpFamily Graph.Tape Graph.Lazy Graph.Backward Graph.TapeLemmas Graph.LazyProofs
   Graph.BackwardProofs Graph.ADProof Tensor.Kernels Tensor.Index Tensor.KernelProofs
@@ -484,7 +501,12 @@ Section Family.
   | OConv2d (sx sw sy : tshape) (p0 p1 s0 s1 d0 d1 : nat)
   | OBatchConcat (xs : list tshape) (sy : tshape)
   | OConcat (xs : list tshape) (sy : tshape) (dim : nat)
-  | OMatmul (sa sb sy : tshape).
+  | OMatmul (sa sb sy : tshape)
+  | OAddConst (s : tshape) (k : R)
+  | OSubConstR (s : tshape) (k : R)
+  | OSubConstL (s : tshape) (k : R)
+  | OMulConst (s : tshape) (k : R)
+  | ONeg (s : tshape).
 
   Definition leaf_desc (s : tshape) (v : list R) (ok nop : bool) : opdesc :=
     {| d_args := []; d_rets := [s]; d_ok := ok; d_nop := nop;
@@ -554,6 +576,11 @@ Section Family.
         nary_desc rO xs sy (concat_ok xs sy dim) (concat_fw xs sy dim)
           (fun k gy => concat_bw sy (nth k xs dshape) dim (concat_off xs dim k) gy)
     | OMatmul sa sb sy => matmul_desc rO radd rmul sa sb sy
+    | OAddConst s k => un_desc rO radd s (fun x => radd x k) (fun d => d) (fun u => u)
+    | OSubConstR s k => un_desc rO radd s (fun x => rsub x k) (fun d => d) (fun u => u)
+    | OSubConstL s k => un_desc rO radd s (fun x => rsub k x) (fun d => ropp d) (fun u => ropp u)
+    | OMulConst s k => un_desc rO radd s (fun x => rmul x k) (fun d => rmul d k) (fun u => rmul k u)
+    | ONeg s => unary_lin s s (0 <? tbatch s) (un_eval R rO ropp (tsize s)) (fun gy => plus_eq s (vneg ropp gy))
     end.
 
   Definition core_family : OpFamily cop tshape (@OpFamily.vec R) :=
@@ -634,6 +661,14 @@ Section Family.
       intro H. destruct (concat_ok_spec xs sy dim H) as (Hc & Hf & Hk). split; [exact Hc|split; [exact Hf|]].
       intros k sk Esk. rewrite (nth_error_nth _ _ dshape Esk). apply paste_adj. apply Hk. exact Esk.
     - (* MatrixMultiply *) apply (matmul_LA rO rI radd rmul rsub ropp Rth).
+    - (* AddConst *) apply (un_LA rO rI radd rmul rsub ropp Rth). intros; ring.
+    - (* SubtractConstR *) apply (un_LA rO rI radd rmul rsub ropp Rth). intros; ring.
+    - (* SubtractConstL *) apply (un_LA rO rI radd rmul rsub ropp Rth). intros; ring.
+    - (* MultiplyConst *) apply (un_LA rO rI radd rmul rsub ropp Rth). intros; ring.
+    - (* Negative *) apply unary_lin_LA. intro H. apply Nat.ltb_lt in H.
+      apply (post_plus_eq _ s _ (vneg ropp)); [|exact H].
+      apply (adj_ext rO radd rmul _ _ (vneg ropp) _ (vneg ropp) (vneg ropp)); [apply (vneg_adj rO rI radd rmul rsub ropp Rth)| |reflexivity].
+      intros dx Hd. rewrite <- Hd. apply un_eval_map.
   Qed.
 
   (* a descriptor's adjointness is LocalAdjoint of the family *)
@@ -701,6 +736,3 @@ Section Family.
     apply (dot_ones rO rI radd rmul rsub ropp Rth).
   Qed.
 End Family.
-
-(* NOT covered by core_family yet (their kernel-level theorems exist, the operator-level
-   composition is still to be written): see the report at the top. *)
